@@ -38,6 +38,9 @@ def main():
     c.add_argument("--quick", action="store_true")
     c.add_argument("--thorough", action="store_true")
     c.add_argument("--repo", default="/repo")
+    t = sub.add_parser("selftest")
+    t.add_argument("--mutants", action="store_true")
+    t.add_argument("--repo", default="/repo")
     r = sub.add_parser("replay")
     r.add_argument("file")
     r.add_argument("--repo", default="/repo")
@@ -50,6 +53,10 @@ def main():
             mod = importlib.import_module("checks." + REGISTRY[args.prop])
             res = mod.run(args.prop, tier, seed, os.path.abspath(args.repo))
             return res.finish()
+        if args.cmd == "selftest":
+            from checks import selftest
+            args.repo = os.path.abspath(args.repo)
+            return selftest.run(args)
         if args.cmd == "replay":
             with open(args.file) as f:
                 rep = json.load(f)
